@@ -64,7 +64,7 @@ type c42Worker struct {
 func c42() {
 	r := vk.Start("C42", "exploration")
 	workers := r.Pick(8, 12)
-	rounds := r.Pick(20, 60) // per worker
+	rounds := r.Pick(24, 60) // per worker
 	base := r.Scratch()
 	hb := startHeartbeat(filepath.Join(base, "heartbeat"))
 	defer hb.close()
@@ -102,7 +102,7 @@ func c42() {
 			defer le.shutdown()
 			wk := &c42Worker{r: r, id: w, rng: rng, root: root, src: src, le: le, hb: hb}
 			for round := 0; round < rounds; round++ {
-				kind := []string{"scan-after-transition", "external-edit", "reversal", "partial-transition", "reversal-chain"}[(round+w)%5]
+				kind := []string{"scan-after-transition", "external-edit", "reversal", "partial-transition", "reversal-chain", "edit-after-failed-poll-scan"}[(round+w)%6]
 				fmt.Printf("C42 worker %d round %d: %s\n", w, round, kind)
 				if !drain(le.ep) {
 					r.Inconclusive("never-quiet")
@@ -111,15 +111,17 @@ func c42() {
 				switch kind {
 				case "scan-after-transition":
 					offsets := []time.Duration{0, 0, 0, 30, 150, 400, 700, 950, 1050, 1300}
-					wk.scanAfterTransition(offsets[(round/5+w)%len(offsets)] * time.Millisecond)
+					wk.scanAfterTransition(offsets[(round/6+w)%len(offsets)] * time.Millisecond)
 				case "external-edit":
 					wk.externalEdit()
 				case "reversal":
 					wk.reversal()
 				case "partial-transition":
-					wk.partialTransition([]string{"unknown-child", "modified-child", "missing-staged"}[(round/5+w)%3])
+					wk.partialTransition([]string{"unknown-child", "modified-child", "missing-staged"}[(round/6+w)%3])
+				case "edit-after-failed-poll-scan":
+					wk.editAfterFailedPollScan()
 				case "reversal-chain":
-					wk.reversalChain(2 + (round/5+w)%2)
+					wk.reversalChain(2 + (round/6+w)%2)
 				}
 			}
 		}(w)
@@ -621,4 +623,61 @@ func c42SlowTransition(r *vk.Run, hb *heartbeat, index int, dir string, bigCopy 
 	w := &c42Worker{r: r, id: 100 + index, root: root, le: le, hb: hb}
 	w.checkScan(snap, kind, change.Path, 0)
 	r.Distinct(fmt.Sprintf("%s|tick-inside=%v", kind, inside))
+}
+
+// (b') polling must go on after one of the poller's periodic scans failed: the root is
+// replaced by a symbolic link for about 1.5 polling intervals (core.Scan refuses a symbolic
+// link at the root, so the poller's scan fails without ending the endpoint), restored, and
+// after things are quiet again an external edit must still be noticed.
+func (w *c42Worker) editAfterFailedPollScan() {
+	r := w.r
+	away := w.root + ".away"
+	if err := os.Rename(w.root, away); err != nil {
+		r.Inconclusive("round-setup")
+		return
+	}
+	if err := os.Symlink(away, w.root); err != nil {
+		os.Rename(away, w.root)
+		r.Inconclusive("round-setup")
+		return
+	}
+	// The real poller strobes the poll signal when its scan fails; seeing that is the liveness
+	// control for "a poll scan really failed" (not asserted).
+	failedScanSeen, _ := pollOnce(w.le.ep, c42Interval*3/2)
+	if failedScanSeen {
+		time.Sleep(c42Interval / 2)
+	}
+	os.Remove(w.root)
+	if err := os.Rename(away, w.root); err != nil {
+		r.Inconclusive("round-setup")
+		return
+	}
+	if failedScanSeen {
+		r.Count("failed_poll_scans_signalled", 1)
+	} else {
+		r.Count("failed_poll_scans_not_signalled", 1)
+	}
+	if !drain(w.le.ep) {
+		r.Inconclusive("never-quiet")
+		return
+	}
+	before, _, err := fsx.Walk(w.root, c42WalkOptions)
+	if err != nil {
+		r.Inconclusive("walk-error")
+		return
+	}
+	offset := time.Duration(w.rng.Intn(1000)) * time.Millisecond
+	time.Sleep(offset)
+	w.n++
+	name := fmt.Sprintf("afterfail%d", w.n)
+	if err := os.WriteFile(filepath.Join(w.root, name), token(w.rng, 100+w.rng.Intn(1000)), 0o644); err != nil {
+		r.Inconclusive("edit-failed")
+		return
+	}
+	after, _, _ := fsx.Walk(w.root, c42WalkOptions)
+	if same, _ := strictDiff("", before, after); same {
+		r.Inconclusive("edit-failed")
+		return
+	}
+	w.awaitPoll("edit-after-failed-poll-scan", "create-file", offset, map[string]any{"path": name, "failed_scan_signalled": failedScanSeen})
 }
